@@ -376,9 +376,8 @@ Lemma nnb_in_dim_aux : True. Proof. exact I. Qed.
 Lemma in_boxb_in_dim R : in_boxb ge R = true -> in_dim ge R.
 Proof.
   unfold in_boxb, in_boxw, nmaxv, in_dim. destruct (g_G ge) as [[[[[g11 g22] g33] g12] g13] g23].
-  destruct (g_wover ge) as [[w0 w1] w2].
   destruct R as [[x y] z]. cbn [snd]. destruct (Nat.leb_spec 3 (g_dim ge)) as [L|L]; [left; exact L|].
-  destruct (g_over ge); intro H; right; lia.
+  destruct (g_box ge) as [| |[[w0 w1] w2]]; [| destruct (adjdiag ge) as [[[a1 a2] a3] dt] |]; intro H; right; lia.
 Qed.
 
 (* ---- soundness: everything enumerated is a clique of the right size ---- *)
@@ -924,13 +923,14 @@ Proof. intros Hs P. unfold chash, ckeys_of. cbn [c_kind c_sites c_tt Cluster]. a
 End HashProofs.
 
 (* ================================================================== refutation and non-vacuity *)
-(* The code's search box  round(cutoff/|a_i|) + 1  is NOT always sufficient: hexagonal 2-D lattice
+(* The search box  round(cutoff/|a_i|) + 1  of makeclusters before the fix b4d0a84 (BoxOld) is NOT
+   always sufficient: hexagonal 2-D lattice
    (metric [[1,-1/2],[-1/2,1]]), two atoms at (3/8,1/4) and (5/8,3/4), cutoff 6.4975.  The pair
    {atom 0 at 0, atom 1 at (-4,-8)} is within the cutoff, but |R_2| = 8 > 7 = round(6.4975)+1, and the
    model of makeclusters (like the implementation) does not list it. *)
 Module Witness.
 Definition ge : geom :=
-  mkGeom 2 (2, 2, 2, -1, 0, 0) 2 8 [(3, 2, 0); (5, 6, 0)] [O; O] [] 6754801 160000 false (0, 0, 0).
+  mkGeom 2 (2, 2, 2, -1, 0, 0) 2 8 [(3, 2, 0); (5, 6, 0)] [O; O] [] 6754801 160000 BoxOld.
 Definition cl : clus := [mkP 0 (0, 0, 0); mkP 1 (-4, -8, 0)].
 
 Lemma witness_clique : clique ge cl.
@@ -955,10 +955,18 @@ Proof.
   apply (enum_complete Witness.ge Hr 2 Witness.cl Witness.witness_clique); [reflexivity | lia].
 Qed.
 
+(* with the repaired box of the current code (BoxNew) the same pair is found, and that box is certified *)
+Module WitnessFixed.
+Definition ge : geom :=
+  mkGeom 2 (2, 2, 2, -1, 0, 0) 2 8 [(3, 2, 0); (5, 6, 0)] [O; O] [] 6754801 160000 BoxNew.
+Example found : In (canon Witness.cl) (enumerate ge 2) /\ nmaxv ge = (9, 9, 0) /\ nmaxv Witness.ge = (7, 7, 0).
+Proof. split; [apply cl_mem_In; vm_compute; reflexivity | split; vm_compute; reflexivity]. Qed.
+End WitnessFixed.
+
 (* non-vacuity: square lattice, one atom, cutoff 3/2: the box is certified, there are two pair
    classes per order ... and triangles exist *)
 Module Example.
-Definition ge : geom := mkGeom 2 (1, 1, 1, 0, 0, 0) 1 1 [(0, 0, 0)] [O] [] 9 4 false (0, 0, 0).
+Definition ge : geom := mkGeom 2 (1, 1, 1, 0, 0, 0) 1 1 [(0, 0, 0)] [O] [] 9 4 BoxNew.
 Definition certs : list rcert :=
   [mkCert 1 1 [(1, (0, 1, 0)); (1, (0, 0, 1))] 1; mkCert 1 1 [(1, (1, 0, 0)); (1, (0, 0, 1))] 1;
    mkCert 1 1 [(1, (1, 0, 0)); (1, (0, 1, 0))] 1].
